@@ -315,6 +315,11 @@ def oracle_observers(scn, res):
                 if list(sq) != [x for x in sq[::k] for _ in range(k)]:
                     v.append((ci, "observer/multiple-registration-order", str(sq[:6])))
                 sq = sq[::k]
+            # a call that is answered by something that is no reply (garbage, a line that does not fit the buffer): the
+            # observers are told of no reply
+            if e.get("throws") and e.get("replies") == [] and e.get("cmds") and any(x.startswith("r:") for x in sq) \
+                    and not e.get("reply_optional") and not e.get("may_throw"):
+                v.append((ci, "observer/told-of-a-reply-that-is-not-on-the-wire", "observer %d was told %s" % (o, [x[:40] for x in sq if x.startswith("r:")][:2])))
             # requests must be the prescribed command lines, replies the returned ones
             reqs = [bytes.fromhex(x.split(":")[1]) if x.split(":")[1] != "-" else b"" for x in sq if x.startswith("q:")]
             want = [canon_line(c) for c in e["cmds"]]
@@ -692,6 +697,34 @@ def fam_observers(rng, n, dist):
                 verb = rng.choice([b"NOOP", b"PWD", b"SYST"])
                 b.failing(("S", verb, None), cmds=[])
             dist.add("observer:command-on-a-closed-connection")
+        out.append(b.scenario())
+    # a reply line longer than the receive buffer (8192 bytes with its terminator): the call fails - the observers are told
+    # of nothing that is not a reply on the wire (no piece of the line passed off as a reply); a line of exactly the
+    # largest size is a reply like any other
+    for k in range(4):
+        b = S.Builder(rng, *rng.choice(ALL_METHODS))
+        b.add_observer(1)
+        if k % 2:
+            b.add_observer(2)
+        b.connect(login=(b"u", b"p"))
+        if k == 0:
+            b.mark += 1
+            text = b"200 " + b"x" * (8192 - 2 - 4 - len(b" [m%d]" % b.mark)) + b" [m%d]" % b.mark      # 8192 bytes with CR LF
+            ci = b.simple(b"NOOP", None, 200)
+            b.cur[-1]["now"][0] = ("R", 200, text)
+            b.exp[ci]["replies"] = [("R", 200, text)]
+            b.simple(b"PWD", None, 257)
+            b.disconnect(True)
+            dist.add("observer:reply-line-of-exactly-8192-bytes")
+        else:
+            long_line = {1: b"200 " + b"x" * 9000 + b"\r\n",
+                         2: b"211-status\r\n" + b"y" * 8192 + b"211 looks like the end\r\n211 end\r\n",
+                         3: b"200 " + b"z" * 8188 + b"\r\n"}[k]            # 8194 bytes: two more than fit
+            b.cur.append(P.reaction([("G", long_line)], close_after=True))
+            b.add_call(("S", b"STAT", None), cmds=[b"STAT"], replies=[], throws=True, check_open=False)
+            b.disconnect(False)
+            b.exp[-1]["may_throw"] = True
+            dist.add("observer:reply-line-longer-than-the-receive-buffer")
         out.append(b.scenario())
     return out
 
